@@ -9,10 +9,11 @@ C17 driver.
   merge <ids> <base> <this> <other>
       -> `<merged tree, ids ascending; content of a text-merged file printed as ?> <conflicts id:kind,… | -> <wf T|F>`
   wf <ids> <tree>  -> T|F
-  change <changed T|F> <copied T|F> <pairs3> <parents3> <names3> <exec3>
+  change <changed T|F> <copied T|F> <pairs3> <parents3> <names3> <exec3> <thisAtCopy>
       one element of `_entries3`, every triple as `base/other/this`:
       pair = `~` | <kind f|d|l>.<content>; parent = `~` (no such entry) | `^` (entry without parent) | n;
-      name = `~` | n; exec = `~` | T | F
+      name = `~` | n; exec = `~` | T | F;
+      thisAtCopy = `~` | <pair>;<parent ^|n>;<name>;<exec T|F>  (what THIS has, versioned, at the copy's own path)
       -> `<merged entry parent:name:kind:content:exec (parent `^` = none, content `?` after a text merge) | -> <conflicts kind,… | ->`
 -/
 namespace BreezyVerif.C17
@@ -68,6 +69,17 @@ def parseParent (s : String) : Option (Option (Option Id)) :=
 def parseOptBool (s : String) : Option (Option Bool) :=
   if s == "~" then some none else (parseBool s).map some
 
+def parseTC (s : String) : Option (Option ((Kind × Nat) × Option Id × Nat × Bool)) :=
+  if s == "~" then some none else
+  match s.splitOn ";" with
+  | [pr, pa, nm, ex] => do
+    let pr ← parsePair pr
+    let pr ← pr
+    let pa ← parseParent pa
+    let pa ← pa
+    pure (some (pr, pa, ← nm.toNat?, ← parseBool ex))
+  | _ => none
+
 def showResult (r : Result) : String :=
   let e := match r.entry with
     | none => "-"
@@ -78,12 +90,12 @@ def showResult (r : Result) : String :=
   s!"{e} {joinList (r.conflicts.map showCK)}"
 
 def handle : List String → String
-  | ["change", ch, cp, pairs, parents, names, execs] =>
+  | ["change", ch, cp, pairs, parents, names, execs, tc] =>
     match parseBool ch, parseBool cp, parseT3 parsePair pairs, parseT3 parseParent parents,
-          parseT3 optNat names, parseT3 parseOptBool execs with
-    | some ch, some cp, some pairs, some parents, some names, some execs =>
-      showResult (mergeChange ⟨ch, pairs, parents, names, execs, cp⟩)
-    | _, _, _, _, _, _ => "bad-op"
+          parseT3 optNat names, parseT3 parseOptBool execs, parseTC tc with
+    | some ch, some cp, some pairs, some parents, some names, some execs, some tc =>
+      showResult (mergeChange ⟨ch, pairs, parents, names, execs, cp, tc⟩)
+    | _, _, _, _, _, _, _ => "bad-op"
   | ["merge", ids, b, t, o] =>
     match parseNatList ids, parseTree b, parseTree t, parseTree o with
     | some ids, some b, some t, some o =>
